@@ -47,6 +47,12 @@ def cases(tier):
                         yield {'rows': list(rows), 'r': [1] + [min(rows)] * (d - 1) + [1], 'c': c, 'fam': 'ties', 'idx': idx, 'scale': 1.0}
                         # weighted unit tensors with weights 2, 1e-17, 1e-3: a retained singular-value ratio below 1e-15
                         yield {'rows': list(rows), 'r': [1] + [min(rows)] * (d - 1) + [1], 'c': c, 'fam': 'graded', 'idx': idx, 'scale': 1.0}
+    # several comparable singular values and one only 1.5 times above the relative cut; the factors are orthonormal, so the
+    # sweeps cannot truncate anything and the cut acts on the unfolding's own spectrum
+    for rows in ([6, 6], [6, 7], [2, 3, 6]):
+        for c in (False, True):
+            for thr in (2e-6, 1e-3):
+                yield {'rows': rows, 'r': [1] + [6] * (len(rows) - 1) + [1], 'c': c, 'fam': 'nearcut', 'idx': len(rows) - 1, 'scale': 1.0, 'thr': thr}
     if q:
         # order 4 (the first order with a split index whose left part has an interior core)
         for rows in ([2, 2, 2, 2], [2, 3, 2, 2]):
@@ -64,7 +70,9 @@ def run_case(case, seed):
     rng = rng_for(case, seed)
     rows, rk, c, fam, idx = case['rows'], case['r'], case['c'], case['fam'], case['idx']
     d = len(rows)
-    if fam == 'lowrank':
+    if fam == 'nearcut':
+        cores0 = rand_cores(rng, rows, [1] * d, rk, c, 'gauss')
+    elif fam == 'lowrank':
         cores0 = lowrank_cores(rng, rows, [1] * d, rk, c, 1)
     elif fam == 'graded':
         J = rk[1]
@@ -111,6 +119,30 @@ def run_case(case, seed):
     a = dn(tt_from(cores0)).reshape(rows)
     m = int(np.prod(rows[:idx])); n = int(np.prod(rows[idx:]))
     A = a.reshape(m, n)
+    if fam == 'nearcut':
+        thr = case['thr']
+        mm, nn = int(np.prod(rows[:-1])), rows[-1]
+        sv = np.array([1.0, 1.0, 1.0, 1.0, 1.0, 1.5 * thr])
+        def on(p_, k_):
+            z = rng.standard_normal((p_, k_)) + (1j * rng.standard_normal((p_, k_)) if c else 0)
+            return np.linalg.qr(z)[0]
+        Um, Vm = on(mm, 6), on(nn, 6)
+        Amat = (Um * sv) @ Vm.conj().T
+        from scikit_tt.tensor_train import TT as _TT
+        T0 = _TT(Amat.reshape(rows + [1] * d))                 # left-orthonormal cores, the spectrum sits in the last core
+        sref = np.linalg.svd(Amat, compute_uv=False)
+        r.nontrivial = True
+        with r.op('svd:nearcut:call'):
+            u, s_, v = T0.svd(d - 1, threshold=thr)
+            r.true('svd:nearcut:kept', len(s_) == 6, 'kept %d singular values, 6 lie above the relative cut %g (smallest ratio %g)' % (len(s_), thr, sref[5] / sref[0]))
+            if len(s_) == 6:
+                r.close('svd:nearcut:singular-values', np.asarray(s_), sref[:6], 1e-9)
+        with r.op('pinv:nearcut:call'):
+            P = T0.pinv(d - 1, threshold=thr)
+            want = np.linalg.pinv(Amat, rcond=thr).conj().T
+            if meta_problem(P) is None and list(P.row_dims) == rows:
+                r.close('pinv:nearcut:value', dn(P).reshape(mm, nn) * sref[5], want * sref[5], 1e-7)
+        return r
     if fam == 'graded':
         # threshold 0 keeps every singular direction, however small: the pseudoinverse (conjugate-transposed) of a weighted sum
         # of unit tensors has the entries 1/conj(w_j) where the tensor has w_j
